@@ -281,6 +281,120 @@ def _alpha_recover(text, spec, what, log):
     return ''.join(out)
 
 
+# ---- RA over a recorded baseline: specs/baseline/<unit>.json holds, per extracted item, the token sequence the proof hints
+# were written against (recorded by `VX_BASELINE_RECORD=1 bin/vxgen <unit> --no-run` on the tree the proofs were made on).
+# It is used for one thing only: to recognise that identifiers of the current function are *renamings* of baseline
+# identifiers (same place in the same token context), so that they can be alpha-renamed back. The text that is verified is
+# always the current tree's.
+_BASE = {}
+_BASE_OUT = None
+
+
+def _free_idents(m, toks):
+    """identifiers used as plain names: not a field / method (`.x`), not a path segment (`a::x`, `x::a`), not a call or macro"""
+    out = set()
+    for t, a, b in toks:
+        if not _IDENT.match(t):
+            continue
+        k = a - 1
+        while k >= 0 and m[k].isspace():
+            k -= 1
+        j = b
+        while j < len(m) and m[j].isspace():
+            j += 1
+        if (k >= 0 and m[k] == '.' and not (k >= 1 and m[k - 1] == '.')) or (k >= 1 and m[k - 1:k + 1] == '::') \
+                or m.startswith('::', j) or m.startswith('(', j) or m.startswith('!', j):
+            continue
+        out.add(t)
+    return out
+
+
+def _alpha_recover_baseline(text, what, log):
+    base = _BASE.get(what)
+    if not base:
+        return text
+    import difflib
+    m = mask(text)
+    toks = _tokens(m)
+    cur = [t for t, _, _ in toks]
+    if cur == base:
+        return text
+    cur_ids = _free_idents(m, toks)
+    base_ids = set()
+    for i, t in enumerate(base):
+        if _IDENT.match(t):
+            prev = base[i - 1] if i > 0 else ''
+            prev2 = base[i - 2] if i > 1 else ''
+            nxt = base[i + 1] if i + 1 < len(base) else ''
+            nxt2 = base[i + 2] if i + 2 < len(base) else ''
+            if (prev == '.' and prev2 != '.') or (prev == ':' and prev2 == ':') or nxt in ('(', '!') or (nxt == ':' and nxt2 == ':'):
+                continue
+            base_ids.add(t)
+    votes = {}
+    sm = difflib.SequenceMatcher(None, base, cur, autojunk=False)
+    for tag, i1, i2, j1, j2 in sm.get_opcodes():
+        if tag != 'replace' or i2 - i1 != j2 - j1:
+            continue
+        for b, c in zip(base[i1:i2], cur[j1:j2]):
+            if b != c and _IDENT.match(b) and _IDENT.match(c) and b not in _KEYWORDS and c not in _KEYWORDS:
+                votes.setdefault(c, set()).add(b)
+    mapping = {}
+    for c, bs in votes.items():
+        if len(bs) != 1:
+            continue
+        b = next(iter(bs))
+        # the new name is unknown to the baseline, the old name is gone from the function, the new name is a bound local / parameter
+        if c in base_ids or b in cur_ids or not _bound_local(m, c):
+            continue
+        mapping[c] = b
+    # one old name renamed into several new ones (it was bound more than once, in disjoint scopes): merging them back is only
+    # known to be a renaming when the result is token for token the baseline; otherwise those names are left alone
+    import collections as _c
+    cnt = _c.Counter(mapping.values())
+    if any(v > 1 for v in cnt.values()):
+        merged = []
+        for t, a, b in toks:
+            if t in mapping:
+                k = a - 1
+                while k >= 0 and m[k].isspace():
+                    k -= 1
+                j = b
+                while j < len(m) and m[j].isspace():
+                    j += 1
+                if not ((k >= 0 and m[k] == '.' and not (k >= 1 and m[k - 1] == '.')) or (k >= 1 and m[k - 1:k + 1] == '::')
+                        or m.startswith('::', j) or m.startswith('(', j) or m.startswith('!', j)):
+                    merged.append(mapping[t])
+                    continue
+            merged.append(t)
+        if merged != base:
+            mapping = {c: b for c, b in mapping.items() if cnt[b] == 1}
+    if not mapping:
+        return text
+    out = []
+    last = 0
+    n = 0
+    for t, a, b in toks:
+        if t in mapping:
+            k = a - 1
+            while k >= 0 and m[k].isspace():
+                k -= 1
+            j = b
+            while j < len(m) and m[j].isspace():
+                j += 1
+            if (k >= 0 and m[k] == '.' and not (k >= 1 and m[k - 1] == '.')) or (k >= 1 and m[k - 1:k + 1] == '::') \
+                    or m.startswith('::', j) or m.startswith('(', j) or m.startswith('!', j):
+                continue
+            out.append(text[last:a])
+            out.append(mapping[t])
+            last = b
+            n += 1
+    out.append(text[last:])
+    for new, old in sorted(mapping.items()):
+        log['rewrites'].append({'rule': 'RA', 'item': what, 'count': n,
+                                'note': 'local `%s` alpha-renamed back to `%s` (aligned with the recorded baseline of the item)' % (new, old)})
+    return ''.join(out)
+
+
 def _find_anchor(text, m, arg, what, span=False):
     mo = re.match(r'"((?:[^"\\]|\\.)*)"\s*(#\d+|#last)?\s*$', arg)
     if not mo:
@@ -391,7 +505,10 @@ def build_item(src, spec, idx, log):
     what = '%s :: %s' % (spec.crate, spec.path)
     # 1. catalogued rewrites
     text = rewrite.apply(text, spec.rules, what, log)
-    # 1b. RA: undo a renaming of locals that would make the template's anchors unfindable
+    # 1b. RA: undo renamings of locals / parameters (hints and contracts are written with the old names)
+    if _BASE_OUT is not None:
+        _BASE_OUT[what] = [t for t, _, _ in _tokens(mask(text))]
+    text = _alpha_recover_baseline(text, what, log)
     text = _alpha_recover(text, spec, what, log)
     # 2. logged literal substitutions
     for frm, to, which, tline in spec.subs:
@@ -738,6 +855,24 @@ def build_unit(name, template_text, sources, read_template=None):
     log = {'rewrites': [], 'subs': [], 'dropped': 'doc comments, attributes (#[derive], #[inline], ...), '
            'items not named by the unit'}
     parts = parse_template(template_text)
+    global _BASE, _BASE_OUT
+    import json as _json
+    import os as _os
+    bpath = _os.path.join(_os.path.dirname(_os.path.dirname(_os.path.abspath(__file__))), 'specs', 'baseline', name + '.json')
+    _BASE = {}
+    _BASE_OUT = {} if _os.environ.get('VX_BASELINE_RECORD') else None
+    import hashlib as _h
+    here = _os.path.dirname(_os.path.abspath(__file__))
+    stamp = _h.sha256((template_text + open(_os.path.join(here, 'unit.py')).read()
+                       + open(_os.path.join(here, 'rewrite.py')).read()).encode()).hexdigest()[:16]
+    if _BASE_OUT is None and _os.path.isfile(bpath):
+        with open(bpath) as fh:
+            d = _json.load(fh)
+        # a baseline recorded for another version of the template or of the extractor is not used (bin/mkbaseline re-records)
+        if d.get('_stamp') == stamp:
+            _BASE = {k: v.split(' ') for k, v in d.items() if k != '_stamp'}
+        else:
+            log['rewrites'].append({'rule': 'RA', 'item': name, 'count': 0, 'note': 'recorded baseline is stale (template or extractor changed): not used'})
     lines = []
     items = []
     idx = 0
@@ -854,4 +989,10 @@ def build_unit(name, template_text, sources, read_template=None):
             raise ExtractError('template has no `} // verus!` line')
         gen = [GenLine(l, ('tmpl', 0)) for d in decls for l in d.split('\n')]
         lines[k:k] = gen
+    if _BASE_OUT is not None:
+        _os.makedirs(_os.path.dirname(bpath), exist_ok=True)
+        with open(bpath, 'w') as fh:
+            out = {k: ' '.join(v) for k, v in sorted(_BASE_OUT.items())}
+            out['_stamp'] = stamp
+            _json.dump(out, fh, indent=0)
     return Unit(name, lines, items, log)
